@@ -1,5 +1,6 @@
 use core::fmt::{Debug, Display, Formatter};
 
+#[cfg_attr(feature = "verif-hooks", allow(missing_docs))]
 pub enum WTinyLFUError {
     InvalidCountMinWidth(u64),
     InvalidSamples(usize),
